@@ -157,6 +157,13 @@ func (env *SpecEnv) Eval(e *Expr) (SpecVal, error) {
 	case EIdent:
 		return env.ident(e.Name)
 	case EUnary:
+		if e.Op == "&" {
+			a, t, err := env.addrOf(e.Args[0])
+			if err != nil {
+				return SpecVal{}, err
+			}
+			return SpecVal{T: a, Ty: types.NewPointer(t)}, nil
+		}
 		x, err := env.Eval(e.Args[0])
 		if err != nil {
 			return SpecVal{}, err
@@ -182,6 +189,17 @@ func (env *SpecEnv) Eval(e *Expr) (SpecVal, error) {
 			if _, ok := x.T.Sort.IsBV(); ok {
 				return SpecVal{T: App(x.T.Sort, "bvnot", x.T), Ty: x.Ty}, nil
 			}
+		case "*":
+			if x.Ty != nil {
+				if el := derefNamed(x.Ty); el != nil {
+					v, err := vc.loadRaw(env.cur, x.T, el)
+					if err != nil {
+						return SpecVal{}, err
+					}
+					return SpecVal{T: v, Ty: el}, nil
+				}
+			}
+			return SpecVal{}, fmt.Errorf("dereference of non-pointer in %s", e.String())
 		}
 		return SpecVal{}, fmt.Errorf("bad unary %s", e.Op)
 	case EBinary:
@@ -556,40 +574,74 @@ func (env *SpecEnv) field(e *Expr) (SpecVal, error) {
 	if x.Ty == nil {
 		return SpecVal{}, fmt.Errorf("field %s of untyped value", e.Op)
 	}
+	obj, path, _ := types.LookupFieldOrMethod(x.Ty, true, env.pkg, e.Op)
+	if _, ok := obj.(*types.Var); !ok || len(path) == 0 {
+		// unexported field of another package: search by name without package check
+		obj, path = lookupFieldAnyPkg(x.Ty, e.Op)
+		if obj == nil {
+			return SpecVal{}, fmt.Errorf("no field %s in %s", e.Op, x.Ty)
+		}
+	}
+	cur := x
+	for _, idx := range path {
+		next, err := env.fieldByIndex(cur, idx)
+		if err != nil {
+			return SpecVal{}, err
+		}
+		cur = next
+	}
+	return cur, nil
+}
+
+func lookupFieldAnyPkg(t types.Type, name string) (types.Object, []int) {
+	if p, ok := t.Underlying().(*types.Pointer); ok {
+		t = p.Elem()
+	}
+	st, ok := t.Underlying().(*types.Struct)
+	if !ok {
+		return nil, nil
+	}
+	for i := 0; i < st.NumFields(); i++ {
+		if st.Field(i).Name() == name {
+			return st.Field(i), []int{i}
+		}
+	}
+	for i := 0; i < st.NumFields(); i++ {
+		if st.Field(i).Embedded() {
+			if o, p := lookupFieldAnyPkg(st.Field(i).Type(), name); o != nil {
+				return o, append([]int{i}, p...)
+			}
+		}
+	}
+	return nil, nil
+}
+
+func (env *SpecEnv) fieldByIndex(x SpecVal, i int) (SpecVal, error) {
+	vc := env.vc
 	if el := derefNamed(x.Ty); el != nil {
 		st, ok := el.Underlying().(*types.Struct)
 		if !ok {
-			return SpecVal{}, fmt.Errorf("field %s of non-struct pointer", e.Op)
+			return SpecVal{}, fmt.Errorf("field of non-struct pointer %s", x.Ty)
 		}
-		for i := 0; i < st.NumFields(); i++ {
-			if st.Field(i).Name() == e.Op {
-				addr := RefAdd(x.T, IntLit(vc.tt.FieldOffset(st, i)))
-				v, err := vc.loadRaw(env.cur, addr, st.Field(i).Type())
-				if err != nil {
-					return SpecVal{}, err
-				}
-				return SpecVal{T: v, Ty: st.Field(i).Type()}, nil
-			}
+		addr := RefAdd(x.T, IntLit(vc.tt.FieldOffset(st, i)))
+		v, err := vc.loadRaw(env.cur, addr, st.Field(i).Type())
+		if err != nil {
+			return SpecVal{}, err
 		}
-		return SpecVal{}, fmt.Errorf("no field %s in %s", e.Op, el)
+		return SpecVal{T: v, Ty: st.Field(i).Type()}, nil
 	}
 	if st, ok := x.Ty.Underlying().(*types.Struct); ok {
 		srt, err := vc.tt.SortOf(x.Ty)
 		if err != nil {
 			return SpecVal{}, err
 		}
-		for i := 0; i < st.NumFields(); i++ {
-			if st.Field(i).Name() == e.Op {
-				fs, err := vc.tt.SortOf(st.Field(i).Type())
-				if err != nil {
-					return SpecVal{}, err
-				}
-				return SpecVal{T: App(fs, structFieldAccessor(srt, i), x.T), Ty: st.Field(i).Type()}, nil
-			}
+		fs, err := vc.tt.SortOf(st.Field(i).Type())
+		if err != nil {
+			return SpecVal{}, err
 		}
-		return SpecVal{}, fmt.Errorf("no field %s in %s", e.Op, x.Ty)
+		return SpecVal{T: App(fs, structFieldAccessor(srt, i), x.T), Ty: st.Field(i).Type()}, nil
 	}
-	return SpecVal{}, fmt.Errorf("field %s of %s", e.Op, x.Ty)
+	return SpecVal{}, fmt.Errorf("field of %s", x.Ty)
 }
 
 // addrOf evaluates an lvalue expression to (address, type).
